@@ -19,6 +19,8 @@
 
   `State.fixed = false` is the code as it is; `fixed = true` is the code with repo_patches/sub_unlocked_withdraw.diff
   (WithdrawableUnlockedBalance subtracts what was already withdrawn from the unlocked total).
+  `State.fixedNeg = true` is the code with repo_patches/sub_wager_nonneg_deduct.diff (the subaccount wager ticket
+  payload rejects a negative main-account or subaccount deduction).
 
   Ghost fields (`Sub.released … Sub.staked`, `State.clean`) never influence `step`; they exist to state C11.
 -/
@@ -123,6 +125,7 @@ deriving Repr, Inhabited
 
 structure State where
   fixed : Bool := false
+  fixedNeg : Bool := false
   now : Nat := 0
   nextId : Nat := 1
   wagerEnabled : Bool := true
@@ -277,6 +280,7 @@ def wager (s : State) (owner : Nat) (main sub : Int) (x : WagerExt) : State × R
     if x.pre = 1 then (s, .err .ticket) else
     if x.pre = 2 then (s, .err .creator) else
     if x.pre = 3 then (s, .err .ext) else
+    if s.fixedNeg && (decide (main < 0) || decide (sub < 0)) then (s, .err .payload) else
     if main + sub ≠ x.betAmount then (s, .err .payload) else
     if x.pre = 5 then (s, .err .payload) else
     if s.bank owner < main then (s, .err .mainbal) else
@@ -470,5 +474,8 @@ def run (s : State) (ops : List Op) : State := ops.foldl (fun s op => (step s op
 
 /-- genesis of the slice: no subaccounts, arbitrary balances -/
 def init (fixed : Bool) (bank : Nat → Int) : State := { fixed := fixed, bank := bank }
+
+/-- genesis with both patches selectable -/
+def init2 (fixed fixedNeg : Bool) (bank : Nat → Int) : State := { fixed := fixed, fixedNeg := fixedNeg, bank := bank }
 
 end Sge.Subaccount
